@@ -1021,6 +1021,15 @@ def main():
             "Import ListNotations.\nLocal Open Scope string_scope.\n\n" + parsers)
     if write_if_changed(os.path.join(GEN_DIR, "ParsersGen.v"), text):
         changed.append("ParsersGen.v")
+    from . import readonly
+    ro, _info = readonly.render()
+    text = ("(* GENERATED by harness/readonly.py: every function of valida that a validation call can reach, abstracted to the\n"
+            "   operations of the aliasing analysis (Taint.v), with the summary the translator proposes for it (which parameters\n"
+            "   it may write, and how deep); Coq re-checks every summary -- do not edit *)\n"
+            "From Coq Require Import List String Bool.\nFrom Valida Require Import Taint.\n"
+            "Import ListNotations.\nLocal Open Scope string_scope.\n\n" + ro)
+    if write_if_changed(os.path.join(GEN_DIR, "ReadOnlyGen.v"), text):
+        changed.append("ReadOnlyGen.v")
     return changed
 
 
